@@ -28,6 +28,17 @@ func init() {
 				out.Line("%s", c12RegionExcCase(setup, cls))
 			}
 		}
+		// what the server is shown under a region's action is that call's own payload: mutations of
+		// two or three regions interleaved in one multi (c10batch.go; judged per action like a single
+		// mutation, Drive/C10.lean)
+		nb := 150
+		if tier != "quick" {
+			nb = 6000
+		}
+		rngB := NewRNG(seed, "c12-batch-cells")
+		for i := 0; i < nb; i++ {
+			c10Batch(out, rngB)
+		}
 	}
 }
 
